@@ -116,6 +116,21 @@ impl<'a> CaseCtx<'a> {
             strict: false,
         }
     }
+    pub fn new_like(other: &CaseCtx<'a>) -> CaseCtx<'a> {
+        let mut c = CaseCtx::new(other.known);
+        c.strict = other.strict;
+        c
+    }
+    /// merge the reporting of a nested check into this one
+    pub fn absorb(&mut self, inner: CaseCtx<'a>) {
+        self.labels.extend(inner.labels);
+        self.asserts += inner.asserts;
+        self.known_hits.extend(inner.known_hits);
+        self.nontrivial |= inner.nontrivial;
+        if inner.derived.is_some() {
+            self.derived = inner.derived;
+        }
+    }
     pub fn label(&mut self, l: &str) {
         self.labels.insert(l.to_string());
     }
